@@ -356,6 +356,54 @@ fn state_counts(counts: [usize; 6]) -> StateCounts {
     c
 }
 
+/// DumbConsoleProgress (progress_dumb.rs) driven directly; it prints to stdout, which the caller captures.
+pub struct Dumb(crate::progress_dumb::DumbConsoleProgress);
+fn display_build(desc: Option<String>, cmdline: Option<String>, hide_success: bool) -> crate::graph::Build {
+    let mut b = crate::graph::Build::new(
+        crate::graph::FileLoc {
+            filename: std::rc::Rc::new(std::path::PathBuf::from("verif")),
+            line: 0,
+        },
+        crate::graph::BuildIns {
+            ids: Vec::new(),
+            explicit: 0,
+            implicit: 0,
+            order_only: 0,
+        },
+        crate::graph::BuildOuts {
+            ids: Vec::new(),
+            explicit: 0,
+        },
+    );
+    b.desc = desc;
+    b.cmdline = cmdline;
+    b.hide_success = hide_success;
+    b
+}
+impl Dumb {
+    pub fn new(verbose: bool) -> Dumb {
+        Dumb(crate::progress_dumb::DumbConsoleProgress::new(verbose))
+    }
+    pub fn task_started(&self, id: usize, desc: Option<String>, cmdline: Option<String>) {
+        use crate::progress::Progress;
+        self.0.task_started(crate::graph::BuildId::from(id), &display_build(desc, cmdline, false));
+    }
+    /// term: 0 success, 1 interrupted, 2 failure
+    pub fn task_finished(&self, id: usize, desc: Option<String>, cmdline: Option<String>, hide_success: bool, term: u8, output: Vec<u8>) {
+        use crate::progress::Progress;
+        let result = crate::task::TaskResult {
+            termination: match term {
+                0 => crate::process::Termination::Success,
+                1 => crate::process::Termination::Interrupted,
+                _ => crate::process::Termination::Failure,
+            },
+            output,
+            discovered_deps: None,
+        };
+        self.0.task_finished(crate::graph::BuildId::from(id), &display_build(desc, cmdline, hide_success), &result);
+    }
+}
+
 /// FancyState (progress_fancy.rs) driven without display thread or terminal.
 pub struct Fancy(crate::progress_fancy::verif_hooks::Fancy);
 impl Fancy {
